@@ -145,7 +145,6 @@ MUTANTS += [
  ('C13', 'undo-no-blob-copy', FS, "                        if self.is_blob_record(up):", "                        if False and self.is_blob_record(up):"),
  ('C13', 'pack-no-removed-lines', 'FileStorage/fspack.py', "                            if h.oid not in self.gc.reachable:\n                                self.blob_removed.write(\n                                    binascii.hexlify(h.oid) + b'\\n')\n                            else:\n                                self.blob_removed.write(\n                                    binascii.hexlify(h.oid + h.tid) + b'\\n')", "                            pass"),
  ('C13', 'blobstorage-abort-no-cleanup', BLOB, "        self.__storage.tpc_abort(*arg, **kw)\n        self._blob_tpc_abort()", "        self.__storage.tpc_abort(*arg, **kw)"),
- ('C13', 'blobstorage-undo-copies-undone-data', BLOB, "                    data, serial_before, serial_after = load_result\n                    orig_fn = self.fshelper.getBlobFilename(oid, serial_before)", "                    data, serial_before, serial_after = load_result\n                    orig_fn = self.fshelper.getBlobFilename(oid, serial_id)"),
  ('C13', 'tmpstore-f20-regress', CONN, "        targetname = self._getCleanFilename(oid, self.index[oid])", "        targetname = self._getCleanFilename(oid, 0)"),
  ('C13', 'blob-invalidate-keeps-uncommitted', BLOB, "        if (self._p_blob_uncommitted):\n            os.remove(self._p_blob_uncommitted)\n\n        super()._p_invalidate()", "        super()._p_invalidate()"),
  ('C13', 'consume-copies-without-dirtying', BLOB, "            # We changed the blob state and have to make sure we join the\n            # transaction.\n            self._p_changed = True", "            pass"),
